@@ -99,14 +99,17 @@ CHECKS = {
          "(table = bitwise), string.to_int = strtoll with full consumption, streaming digests and the integer cores of the math "
          "functions; correspondence through a probe module with Gallina MD5/SHA-1/SHA-256/CRC-32 references and exact rational "
          "values (1e-9 relative tolerance) for floats.", "DESIGN.md §7 C16, notes/C16.md",
-         "Mode minimality, deviation by histogram, the serial-correlation closed form and the log2 enclosure are tied by the "
-         "correspondence only; RustCrypto and crc32fast enter by the streaming contract."),
- "C15": ("proof", "Interruption model over the scanner model with a per-expression count of timeout checks; correspondence at "
+         "C16_model_eq_spec: the model of every math / hash / string call equals the declarative value on well-formed scans "
+         "(mode minimality, deviation by histogram, serial-correlation closed form proved over exact rationals); only the f64 "
+         "tolerance and the log2 enclosure are checked per case rather than proved; RustCrypto and crc32fast enter by the "
+         "streaming contract."),
+ "C15": ("proof", "Prefix theorems (abort: every configuration; timeout: events and returned rules, with and without the first evaluation pass, outside the two recorded classes) by a simulation over the scanner model with a per-expression count of timeout checks; correspondence at "
          "EVERY callback-abort point and EVERY timeout check of each generated scan (error kind, returned rules, events, number "
          "of checks), each followed by a normal scan; prefix / no-spurious-match decided against the uninterrupted run.",
          "DESIGN.md §7 C15",
-         "Hook verif_timeout makes the firing check deterministic. Open finding C15-timeout-unvalidated-globals (pinned by an "
-         "existing test). ScanStatistics / import / match-limit events are not generated."),
+         "Hook verif_timeout makes the firing check deterministic (sticky and fire-once modes). Open findings "
+         "C15-timeout-unvalidated-globals (pinned by an existing test) and C15-noscan-timeout-flush-order. ScanStatistics "
+         "events are left out."),
  "C17": ("proof", "C17_access_sound over the module value/type model (a conforming value accessed along a type-checked path "
          "yields a conforming value); declared type trees regenerated from the source; the premise (published values conform, "
          "counters, caps, idempotence) is explored on pristine and mutated executables.", "DESIGN.md §7 C17, notes/C17.md",
@@ -118,7 +121,7 @@ CHECKS = {
  "C19": ("proof", "Chunk tiling for every region length / chunk size / page size, fetch cap, reset = fresh cursor, pagemap "
          "decision table; correspondence: the real LinuxProcessMemory walked over synthetic /proc files, every next/fetch/reset "
          "answer and every fetched byte against model and spec.", "DESIGN.md §7 C19",
-         "procfs semantics assumed as documented in proc(5); no live victim process in the quick tier."),
+         "procfs semantics assumed as documented in proc(5); a live victim process (anonymous, private and shared file mappings, needles around page and chunk boundaries) is scanned in both tiers. Open finding C19-shared-tail-beyond-eof."),
  "C20": ("proof", "Include expansion model = textual inlining (transparency, same error kind, totality with the depth limit, "
          "disabled mode, path resolution); correspondence on generated include graphs compiled in child processes, three "
          "resolution modes.", "DESIGN.md §7 C20, notes/C20.md",
